@@ -1,2 +1,12 @@
 import Emitter.Props.C20
-#print axioms Emitter.C20.placeholder
+#print axioms Emitter.C20.fact_xtea_sum
+#print axioms Emitter.C20.fact_alphabet
+#print axioms Emitter.C20.key_roundtrip
+#print axioms Emitter.C20.encrypt_injective
+#print axioms Emitter.C20.reject_invalid
+#print axioms Emitter.C20.decrypt_total
+#print axioms Emitter.C20.stream_roundtrip
+#print axioms Emitter.C20.shuffle_roundtrip
+#print axioms Emitter.C20.xtea_block_roundtrip
+#print axioms Emitter.C20.parse_total
+#print axioms Emitter.C20.v1_roundtrip
